@@ -37,6 +37,11 @@ P["C08"] = dict(
    note=TB + " Known findings: onnxruntime's Gather on strings (runtime bug), masks of lower rank over zero extents.",
    technique="Coq proof of the 1-D slice law + ast translation of the index normaliser proved equal to the model each run + in-Coq correspondence of the n-D lowering",
    ref="DESIGN.md §5 C08")
+P["C11"] = dict(
+   text="Proof, partial. Coq theorems (closed): roll - for every extent > 0 and every shift of any sign and magnitude, the index vector ndonnx gathers with (range + (len - shift)) mod len under ONNX Mod semantics is NumPy's (i - shift) mod len, every index is in range, shifts are periodic; flip - the emitted [::-1] Slice reverses an axis of any extent (through slice_1d); naturality - select/drop/unsqueeze/transpose/expand/squeeze commute with every element-wise map, i.e. they are pure data movement, identical for every dtype and for the values/null fields of struct dtypes; refutations for roll on extent 0 and reshape targets containing 0. Tie (in-Coq correspondence, every run): 13 layout functions with random parameters on int64 token tensors (ranks 0-4, extents incl. 0) are compared inside Coq with the executable model of the lowering (Transpose/Unsqueeze/Squeeze/Slice/Gather/Reshape/Expand/Concat/Trilu). NumPy sweep over 16 functions x 8 dtypes (incl. string and nullable: masks must move with values), eager and traced with symbolic dims. Partial: closed-form equality with NumPy is proved for roll and flip only; the other functions rest on model==implementation (Coq-checked per run) and implementation==NumPy (sampled).",
+   note=TB + " 6 known-finding classes (matrix_transpose/T/mT on bool and string, stack/concat on nullable, roll and reshape with zero extents, tril/triu on bool/unsigned, onnxruntime string Gather).",
+   technique="Coq theorems on an executable tensor model (index arithmetic, naturality) + in-Coq correspondence of the lowering",
+   ref="DESIGN.md §5 C11")
 NOT_YET = {}
 props = [json.loads(l) for l in open(V/'properties.jsonl')]
 checks, na = [], []
